@@ -400,8 +400,7 @@ def _r10_2(ctx, R, RULE='R10.2'):
     R.ob(RULE, '_check_capacity_exceeded:provider-map-complete', okc,
          'the returned map holds the provider of every allocation, filled '
          'before any continue', why, func=chk)
-    R.count(RULE, 1 if rp_loop is not None and cons_loop is not None
-            else 0, 1)
+    R.count(RULE, 1, 1)
 
 
 def _r10_4(ctx, R):
